@@ -170,6 +170,9 @@ type TB struct {
 	True  *Term
 	False *Term
 	Vars  []*Term
+	ub    map[int]uint64
+	lb    map[int]uint64
+	varUB map[int]uint64
 }
 
 func NewTB() *TB {
@@ -364,16 +367,17 @@ func (tb *TB) And(xs ...*Term) *Term {
 		}
 		lits = out
 	}
-	// absorption: a ∧ (a ∨ b) = a ;  a ∧ (¬a ∨ b) = a ∧ b
+	// absorption: a ∧ (a ∨ b) = a ;  a ∧ (¬a ∨ b) = a ∧ b   (¬(x∧y) is viewed as ¬x ∨ ¬y)
 	if len(lits) > 1 {
 		changed := false
 		for i, l := range lits {
-			if l.Op != OpOr {
+			ds := tb.disjuncts(l)
+			if ds == nil {
 				continue
 			}
 			drop := false
 			var keep []*Term
-			for _, d := range l.Args {
+			for _, d := range ds {
 				if seen[d.ID] {
 					drop = true
 					break
@@ -387,7 +391,7 @@ func (tb *TB) And(xs ...*Term) *Term {
 			if drop {
 				lits[i] = tb.True
 				changed = true
-			} else if len(keep) != len(l.Args) {
+			} else if len(keep) != len(ds) {
 				lits[i] = tb.Or(keep...)
 				changed = true
 			}
@@ -463,16 +467,17 @@ func (tb *TB) Or(xs ...*Term) *Term {
 			return r
 		}
 	}
-	// absorption: a ∨ (a ∧ b) = a ; a ∨ (¬a ∧ b) = a ∨ b
+	// absorption: a ∨ (a ∧ b) = a ; a ∨ (¬a ∧ b) = a ∨ b   (¬(x∨y) is viewed as ¬x ∧ ¬y)
 	if len(lits) > 1 {
 		changed := false
 		for i, l := range lits {
-			if l.Op != OpAnd {
+			cs := tb.conjuncts(l)
+			if cs == nil {
 				continue
 			}
 			drop := false
 			var keep []*Term
-			for _, d := range l.Args {
+			for _, d := range cs {
 				if seen[d.ID] {
 					drop = true
 					break
@@ -486,7 +491,7 @@ func (tb *TB) Or(xs ...*Term) *Term {
 			if drop {
 				lits[i] = tb.False
 				changed = true
-			} else if len(keep) != len(l.Args) {
+			} else if len(keep) != len(cs) {
 				lits[i] = tb.And(keep...)
 				changed = true
 			}
@@ -503,6 +508,38 @@ func (tb *TB) Or(xs ...*Term) *Term {
 	}
 	sort.Slice(lits, func(i, j int) bool { return lits[i].ID < lits[j].ID })
 	return tb.mk(&Term{Op: OpOr, S: BoolSort, Args: append([]*Term(nil), lits...)})
+}
+
+// disjuncts views a literal as a disjunction (nil if it is not one).
+func (tb *TB) disjuncts(l *Term) []*Term {
+	if l.Op == OpOr {
+		return l.Args
+	}
+	if l.Op == OpNot && l.Args[0].Op == OpAnd {
+		in := l.Args[0].Args
+		out := make([]*Term, len(in))
+		for i, x := range in {
+			out[i] = tb.Not(x)
+		}
+		return out
+	}
+	return nil
+}
+
+// conjuncts views a literal as a conjunction (nil if it is not one).
+func (tb *TB) conjuncts(l *Term) []*Term {
+	if l.Op == OpAnd {
+		return l.Args
+	}
+	if l.Op == OpNot && l.Args[0].Op == OpOr {
+		in := l.Args[0].Args
+		out := make([]*Term, len(in))
+		for i, x := range in {
+			out[i] = tb.Not(x)
+		}
+		return out
+	}
+	return nil
 }
 
 // factorOr: (C ∧ x) ∨ (C ∧ ¬x) = C, where C is the common conjunct set.
@@ -1208,4 +1245,111 @@ func exprSMT(t *Term, ref func(*Term) string) string {
 	}
 	sb.WriteString(")")
 	return sb.String()
+}
+
+// ---------------------------------------------------------------------------------------------
+// Cheap unsigned upper bounds (used to decide "fits in capacity" without a solver call)
+
+const ubInf = uint64(1) << 62
+
+// UB returns a sound unsigned upper bound of a BV term (ubInf when unknown).
+func (tb *TB) UB(t *Term) uint64 {
+	if tb.ub == nil {
+		tb.ub = map[int]uint64{}
+	}
+	if v, ok := tb.ub[t.ID]; ok {
+		return v
+	}
+	r := ubInf
+	switch t.Op {
+	case OpConst:
+		r = t.C
+		if r > ubInf {
+			r = ubInf
+		}
+	case OpIte:
+		a, b := tb.UB(t.Args[1]), tb.UB(t.Args[2])
+		r = a
+		if b > r {
+			r = b
+		}
+	case OpAdd:
+		a, b := tb.UB(t.Args[0]), tb.UB(t.Args[1])
+		// additions of small values cannot wrap; a constant like -1 (huge unsigned) yields unknown
+		if a < ubInf/2 && b < ubInf/2 {
+			r = a + b
+		} else if t.Args[1].IsConst() && sx(t.Args[1].C, t.S.W) < 0 && a < ubInf {
+			// x + (-c): no underflow when lb(x) >= c
+			c := uint64(-sx(t.Args[1].C, t.S.W))
+			if tb.LB(t.Args[0]) >= c {
+				r = a - c
+			}
+		}
+	case OpZExt:
+		r = tb.UB(t.Args[0])
+	case OpBAnd:
+		a, b := tb.UB(t.Args[0]), tb.UB(t.Args[1])
+		r = a
+		if b < r {
+			r = b
+		}
+	case OpURem:
+		if b := tb.UB(t.Args[1]); b > 0 && b < ubInf {
+			r = b - 1
+		}
+	case OpVar:
+		if t.S.W < 62 {
+			r = mask(t.S.W)
+		} else if v, ok := tb.varUB[t.ID]; ok {
+			r = v
+		}
+	}
+	tb.ub[t.ID] = r
+	return r
+}
+
+// SetVarUB records a range fact about an input variable (from vpInt ranges).
+func (tb *TB) SetVarUB(t *Term, hi uint64) {
+	if tb.varUB == nil {
+		tb.varUB = map[int]uint64{}
+	}
+	tb.varUB[t.ID] = hi
+}
+
+// LB returns a sound unsigned lower bound of a BV term (0 when unknown).
+func (tb *TB) LB(t *Term) uint64 {
+	if tb.lb == nil {
+		tb.lb = map[int]uint64{}
+	}
+	if v, ok := tb.lb[t.ID]; ok {
+		return v
+	}
+	var r uint64
+	switch t.Op {
+	case OpConst:
+		r = t.C
+		if r > ubInf {
+			r = 0 // negative numbers seen as huge unsigned: not useful as a bound
+		}
+	case OpIte:
+		a, b := tb.LB(t.Args[1]), tb.LB(t.Args[2])
+		r = a
+		if b < r {
+			r = b
+		}
+	case OpAdd:
+		x, y := t.Args[0], t.Args[1]
+		if y.IsConst() && sx(y.C, t.S.W) < 0 {
+			c := uint64(-sx(y.C, t.S.W))
+			if l := tb.LB(x); l >= c && tb.UB(x) < ubInf {
+				r = l - c
+			}
+		} else if tb.UB(x) < ubInf/2 && tb.UB(y) < ubInf/2 {
+			r = tb.LB(x) + tb.LB(y)
+		}
+	case OpZExt:
+		r = tb.LB(t.Args[0])
+	}
+	tb.lb[t.ID] = r
+	return r
 }
